@@ -1,4 +1,5 @@
 from fw import PropertyCheck
+import fam_world
 import fam_swap
 
 
@@ -7,8 +8,10 @@ class Check(PropertyCheck):
     rule = ("compute_offer_amount inputs: corpus, random magnitudes, asks placed next to the point where the "
             "grossed-up ask reaches the ask reserve, commission rates up to 1-1e-18 and above 1; compute_swap inputs "
             "as in C06 (the forward quote and the swap share this function).  Non-trivial = Ok.  Distinct by input.")
+    rule_world = 'plus world histories'
     modelled = ["system level (Simulation query = executed swap; router folds) is covered by the world family"]
     assumptions = ["operands are 128-bit"]
 
     def families(self, rng, tier):
-        return [("formulas.compute_offer_amount", fam_swap.reverse_cases(rng, tier))]
+        return [("formulas.compute_offer_amount", fam_swap.reverse_cases(rng, tier)),
+                ("world.general", fam_world.general_histories(rng, tier, n_hist={"quick": 5, "thorough": 50}[tier])), ("world.router", fam_world.router_histories(rng, tier))]
